@@ -1,6 +1,7 @@
 //! E5: compile-time gate for C18.  The compiler is the observer: these generic
 //! functions type-check only if the auto traits hold for EVERY payload type T.
 #![cfg_attr(feature = "freeze", feature(freeze))]
+#![cfg_attr(not(feature = "std"), no_std)]
 #![allow(deprecated)]
 
 use indextree::{
